@@ -14,6 +14,11 @@ Doubles are 16-hex-digit bit patterns, sizes / indices / slots are decimal.
   r2s rho alpha range                      -> value
   togeo R M emass E lambda range tstep O   -> step alpha | oob | precond   (O = expm1(-tstep/lambda))
   fromgeo true alpha range lambda gstep O  -> value                         (O = log1p(-gstep/lambda))
+  xsbuild S emin eprime emax n xs0…        -> ok <delta> <prime_index>   (ValueGridXsBuilder + inserter)
+  logbuild S emin emax n v0…               -> ok <delta> <prime_index>   (ValueGridLogBuilder)
+  physbuild M L R limit rho alpha fixed    -> ok     (PhysicsParams from builder-made slots, fresh track state)
+  pstep E mfp frac   -> step action dedx_range macro_xs loss    (calc_physics_step_limit, then
+                        calc_mean_energy_loss over frac·step on the SAME track state)
 -/
 import CelerVerif.Model.Calc
 import CelerVerif.Num.F64
@@ -33,11 +38,32 @@ def hxo : Option Float → String
 /-- `static_cast<size_type>(double)` for the in-range values the code produces -/
 def toIdxF (x : Float) : Nat := x.toUInt64.toNat
 
+/-- PhysicsParams (one process: macro xs, energy loss, range) + the persistent track state -/
+structure Phys where
+  mxs : XsGrid Float
+  loss : XsGrid Float
+  rng : XsGrid Float
+  lim : Float
+  rho : Float
+  alpha : Float
+  fixed : Float
+  track : PhysTrack Float
+
 structure St where
   xs : Array (Option (XsGrid Float))
   gen : Array (Option (GenGrid Float))
+  built : Array Bool := Array.replicate 8 false     -- slot made by a real builder op
+  phys : Option Phys := none
 
-def St.init : St := ⟨Array.replicate 8 none, Array.replicate 8 none⟩
+def St.init : St := ⟨Array.replicate 8 none, Array.replicate 8 none, Array.replicate 8 false, none⟩
+
+def St.builtSlot (st : St) (s : String) : Option (XsGrid Float) :=
+  match s.toNat? with
+  | some k => if st.built.getD k false then (if h : k < st.xs.size then st.xs[k] else none) else none
+  | none => none
+
+def actionStr : StepAction → String
+  | .discrete => "d" | .range => "r" | .fixed => "f"
 
 def St.xsSlot (st : St) (s : String) : Option (XsGrid Float) :=
   match s.toNat? with
@@ -64,7 +90,8 @@ def driverStep (st : St) (line : String) : St × String :=
         if k < 8 ∧ n ≥ 2 ∧ off + n ≤ ws.length then
           let g := UGrid.fromBounds f b n
           let d : XsGrid Float := ⟨g, pr, off, n, ws.toArray⟩
-          ({ st with xs := st.xs.setIfInBounds k (some d) }, s!"ok {hx g.delta}")
+          ({ st with xs := st.xs.setIfInBounds k (some d), built := st.built.setIfInBounds k false },
+            s!"ok {hx g.delta}")
         else (st, "bad-op")
       | none => (st, "bad-op")
     | _, _, _, _, _, _ => (st, "bad-op")
@@ -141,6 +168,49 @@ def driverStep (st : St) (line : String) : St × String :=
     (st, match pfs [tr, alpha, rng, lam, g, o] with
       | some [tr, alpha, rng, lam, g, o] => hx (mscStepFromGeo (fun _ => o) tr alpha rng lam g)
       | _ => "bad-op")
+  | "xsbuild" :: s :: emin :: eprime :: emax :: n :: ws =>
+    match s.toNat?, pfs [emin, eprime, emax], n.toNat?, pfs ws with
+    | some k, some [emin, eprime, emax], some n, some ws =>
+      if k < 8 ∧ n ≥ 2 ∧ ws.length = n ∧ emin > 0.0 ∧ eprime >= emin ∧ emax > eprime then
+        let d := (XsBuilder.mk' emin eprime emax ws.toArray).build toIdxF #[]
+        ({ st with xs := st.xs.setIfInBounds k (some d), built := st.built.setIfInBounds k true },
+          s!"ok {hx d.grid.delta} {d.prime}")
+      else (st, "bad-op")
+    | _, _, _, _ => (st, "bad-op")
+  | "logbuild" :: s :: emin :: emax :: n :: ws =>
+    match s.toNat?, pfs [emin, emax], n.toNat?, pfs ws with
+    | some k, some [emin, emax], some n, some ws =>
+      if k < 8 ∧ n ≥ 2 ∧ ws.length = n ∧ emin > 0.0 ∧ emax > emin then
+        let d := logBuild emin emax ws.toArray #[]
+        ({ st with xs := st.xs.setIfInBounds k (some d), built := st.built.setIfInBounds k true },
+          s!"ok {hx d.grid.delta} {d.prime}")
+      else (st, "bad-op")
+    | _, _, _, _ => (st, "bad-op")
+  | ["physbuild", m, l, r, lim, rho, alpha, fixed] =>
+    match st.builtSlot m, st.builtSlot l, st.builtSlot r, pfs [lim, rho, alpha, fixed] with
+    | some dm, some dl, some dr, some [lim, rho, alpha, fixed] =>
+      if dm.grid.front.toBits == dl.grid.front.toBits && dl.grid.front.toBits == dr.grid.front.toBits
+          && dm.grid.back.toBits == dl.grid.back.toBits && dl.grid.back.toBits == dr.grid.back.toBits
+          && lim > 0.0 && lim <= 1.0 && rho > 0.0 && alpha > 0.0 && fixed >= 0.0
+          && dl.prime == noScaling && dr.prime == noScaling then
+        ({ st with phys := some ⟨dm, dl, dr, lim, rho, alpha, fixed, ⟨0.0, 0.0⟩⟩ }, "ok")
+      else (st, "bad-op")
+    | _, _, _, _ => (st, "bad-op")
+  | ["pstep", e, mfp, frac] =>
+    match st.phys, pfs [e, mfp, frac] with
+    | some ph, some [e, mfp, frac] =>
+      if e > 0.0 && mfp > 0.0 && frac > 0.0 && frac <= 1.0 then
+        match physicsStepLimit toIdxF ph.mxs ph.rng ph.rho ph.alpha ph.fixed ph.track e mfp with
+        | none => (st, "oob")
+        | some (lim, tr) =>
+          let st' := { st with phys := some { ph with track := tr } }
+          let s := frac * lim.step
+          let head := s!"{hx lim.step} {actionStr lim.action} {hx tr.dedxRange} {hx tr.macroXs}"
+          if s > 0.0 then
+            (st', s!"{head} {hxo (meanEnergyLoss toIdxF ph.loss ph.rng ph.lim e tr.dedxRange s)}")
+          else (st', s!"{head} nostep")
+      else (st, "precond")
+    | _, _ => (st, "bad-op")
   | _ => (st, "bad-op")
 
 end CelerVerif.Calc
